@@ -94,16 +94,30 @@ def check_program(res, src, items, batch, tag):
 
 
 def empty_parens(src):
-    """`(` `)` with nothing between them where an expression starts (`x=()`): the implementation builds a node around
-    None there; the model reports a parse error (documented gap, malformed input only)."""
-    toks = [t for t in (L.impl_lex([src])[1] or []) if type(t).__name__ not in ('TokSpace', 'TokNewline', 'TokComment')]
-    for i in range(len(toks) - 1):
-        if toks[i]._data == b'(' and toks[i + 1]._data == b')' and type(toks[i]).__name__ == 'TokSymbol':
-            prev = toks[i - 1] if i else None
-            callish = prev is not None and (type(prev).__name__ in ('TokName', 'TokString') or prev._data in (b')', b']', b'}'))
-            if not callish:
-                return True
-    return False
+    """`(` `)` with nothing between them where a prefix expression starts (`x=()`, a line starting with `( )`): the
+    implementation's `_prefixexp` then calls `_prefixexp_recur(None)` and may return None with the position advanced;
+    the model reports a parse error (documented gap, malformed input only).  Detected exactly: the real parser is run
+    with `_prefixexp_recur` wrapped to record a call with `None`."""
+    from pico8.lua import parser as P
+    toks = L.impl_lex([src])[1]
+    if toks is None:
+        return False
+    seen = []
+    orig = P.Parser._prefixexp_recur
+
+    def spy(self, first):
+        if first is None:
+            seen.append(1)
+        return orig(self, first)
+    P.Parser._prefixexp_recur = spy
+    try:
+        try:
+            P.Parser(version=8).process_tokens(toks)
+        except Exception:
+            pass
+    finally:
+        P.Parser._prefixexp_recur = orig
+    return bool(seen)
 
 
 def mutate(rng, src):
